@@ -397,6 +397,46 @@ def attack_histories(ctx):
                 b.close()
 
 
+def lost_shared_image_case(ctx):
+    """File caches that keep single-colour tiles as links: the image the links of one colour point to may go away under them
+    (the clean-up looks at every file by itself: the shared image is older than the links).  The tiles of that colour cannot
+    be read any more then - and the cache says so: is_cached and load agree, a later store brings them back."""
+    for b in B.all_backends(extra=True):
+        if not b.links or 'hardlink' in b.name:
+            continue
+        b.open()
+        try:
+            c = b.new()
+            a1, a2, a3 = (1, 2, 3, None), (2, 2, 3, None), (3, 2, 3, None)
+            B.op_store(c, a1, B.payload('s1'))
+            B.op_store(c, a2, B.payload('s1'))
+            B.op_store(c, a3, B.payload('b1'))
+            shared = [os.path.join(r, f) for r, _d, fs in os.walk(os.path.realpath(b.dir)) for f in fs
+                      if os.path.basename(r) == 'single_color_tiles']
+            if len(shared) != 1:
+                raise tlc.MachineryError('%s: expected one shared single-colour image, found %r' % (b.name, shared))
+            os.remove(shared[0])
+            B.cleanup(c)
+            c = b.new()
+            got = {a: (B.op_is_cached(c, a), B.op_load(c, a)) for a in (a1, a2, a3)}
+            ctx.count(('lost-shared-image', b.name))
+            bad = ['%s: is_cached %s, load returns %s' % (list(a[:3]), ic, 'the tile' if v is not None else 'nothing')
+                   for a, (ic, v) in sorted(got.items()) if ic != (v is not None)]
+            if got[a3] != (True, B.payload('b1')):
+                bad.append('the tile of several colours next to them reads %r' % (got[a3],))
+            B.op_store(c, a1, B.payload('s1'))
+            again = {a: B.op_load(c, a) for a in (a1, a2)}
+            if again[a1] != B.payload('s1'):
+                bad.append('after a new store of %s it reads %r' % (list(a1[:3]), again[a1]))
+            if bad:
+                ctx.violation({'kind': 'lost-shared-image', 'backend': b.name},
+                              '%s: the shared image of a colour was removed under the links of two tiles: %s' % (b.name, '; '.join(bad)),
+                              {'backend': b.name})
+            B.cleanup(c)
+        finally:
+            b.close()
+
+
 def run(ctx):
     thorough = ctx.tier == 'thorough'
     model_checks(ctx)
@@ -413,7 +453,7 @@ def run(ctx):
     behs = [beh_ops(b) for f, b in tlc.sim_traces(prefix) if len(b) > 1]
     if not behs:
         raise tlc.MachineryError('no CacheMap behaviours from TLC: ' + r.out[-1500:])
-    bks = B.all_backends()
+    bks = B.all_backends(extra=True)
     nrep = 0
     for bi, beh in enumerate(behs):
         for b in bks:
@@ -464,6 +504,7 @@ def run(ctx):
                           bname, family, upto, e['op'], e['args'], e['val'], e['obs']),
                       {'backend': bname, 'family': family, 'events': traces[i][:upto + 1]})
     ctx.log('validated %d recorded histories (%d rejected)' % (len(traces), len(rejected)))
+    lost_shared_image_case(ctx)
     ctx.assumptions += [
         'a bulk load names every address at most once; a bulk operation carries one set of dimension values',
         'tiles are stored with their encoded bytes unchanged (no format conversion); single-colour tiles of one colour '
@@ -477,7 +518,7 @@ def run(ctx):
 
 def replay(ctx, data):
     case = data.get('case') or {}
-    bks = {b.name: b for b in B.all_backends()}
+    bks = {b.name: b for b in B.all_backends(extra=True)}
     if 'ops' in case:
         res = replay_behaviour(ctx, bks[case['backend']], case['family'], [(o, a, None) for o, a in case['ops']])
         print('replay:', res)
